@@ -21,7 +21,7 @@ func cmdOnlyOnce(args []string) error {
 	sig := func(class string) map[string]interface{} {
 		return map[string]interface{}{"prop": "C16", "class": class}
 	}
-	for sc := 0; sc < 8; sc++ {
+	for sc := 0; sc < 16; sc++ {
 		native := sc%2 == 0
 		w, err := NewWorld(native, nil, Concs()[0], KeyConcs()[0], R)
 		if err != nil {
@@ -56,6 +56,20 @@ func cmdOnlyOnce(args []string) error {
 			mk("b", 1, "kb-old")
 			mk("b", 2, "kb")
 			want = []string{"ka", "kb"}
+		}
+		refused := sc/2 >= 4 // an instance whose snapshot LoadOnce refuses (compatibility version of the future): Sync ends with an error
+		if refused {
+			ni := snapshot.NameInfo{Kind: snapshot.KindSnapshot, Extension: snapshot.DefaultExtension, SyncerName: "default", InstanceID: "z", GenerationID: "GX", Timestamp: d.t0.Add(time.Second)}
+			dd := snapshot.NewDBISize(64)
+			dd.SetName("data")
+			dd.Append(snapshot.KV{Key: []byte("kz"), Value: []byte("v"), TimestampNano: 1001})
+			sz := &snapshot.Snapshot{FormatVersion: 3, CompatVersion: 99}
+			sz.Meta.InstanceID = "z"
+			sz.Meta.DatabaseName = "default"
+			sz.Databases = append(sz.Databases, dd)
+			b, _, _ := snapshot.DumpData(sz)
+			_ = gb.Interface.Store(context.Background(), ni.BuildName(), b)
+			d.instOf[ni.BuildName()] = "z"
 		}
 		switch sc / 2 {
 		case 3: // the bucket holds nothing but one undecodable snapshot of another instance, the own LMDB is empty
@@ -119,6 +133,33 @@ func cmdOnlyOnce(args []string) error {
 			}
 		}
 		desc := map[string]interface{}{"scenario": sc, "native": native}
+		if refused {
+			// Sync returned with the refusal; what it started must not stay behind either (a downloader waiting for
+			// the decompress token the refused update held)
+			var left []string
+			for i := 0; i < 60; i++ {
+				left = nil
+				for _, g := range goroutinesIn("lightningstream/syncer/receiver", "lightningstream/utils/climit") {
+					if !before[strings.SplitN(g, " [", 2)[0]] {
+						left = append(left, g)
+					}
+				}
+				if len(left) == 0 {
+					break
+				}
+				time.Sleep(25 * time.Millisecond)
+			}
+			if syncErr == nil {
+				R.Bad(desc, sig("refused-accepted"), "Sync ended without error although a snapshot of a future compatibility version was in the bucket")
+			} else if len(left) > 0 {
+				R.Bad(desc, map[string]interface{}{"prop": "C17", "class": "goroutine-left-after-error-return"},
+					"Sync returned with an error (%v) and %d goroutine(s) it started are still there: %.600v", syncErr, len(left), left)
+			}
+			cancel()
+			R.Add(1, 1, 1)
+			w.Close()
+			continue
+		}
 		if syncErr == nil {
 			// C17: Sync returned by itself while the caller's context is still open - nothing it started may stay behind
 			var left []string
